@@ -36,36 +36,115 @@ On a grammar that fails `Verify()` every query (except `verify`, `unchanged`) an
 `!` (`!table`, `!parse a`, …) the query is run all the same, and the answer is `panic` where the Go code dereferences the nil
 answer of a table that has no entry for an undeclared symbol.
 
-Symbols by name: a body word is a non-terminal iff it is listed in `nonterms`; `^Z` is the non-terminal `Z` whether declared or
-not; a terminal called like a declared non-terminal is written `'S` everywhere (for the Model `'S` is just its name).
+Symbols by name: a word is `[marker] ++ encName name`.  The marker `'` says terminal, `^` says non-terminal (declared or
+not); without a marker a body word is a non-terminal iff it is listed in `nonterms`.  `encName` writes the empty name as `%`
+and, byte by byte as `%XX`, every byte ≤ 0x20, 0x7F, `%`, the arrow `→`, a leading `'` or `^`, and the names `$` and `ε`
+altogether (harness/c10: EncName / DecName are the same functions).  The driver DECODES every word it reads, so the Model
+runs on the names the Go code sees (`OrderTerminals`, `OrderNonTerminals` and `cmpProduction` order by name), and ENCODES
+every name it prints; printed terminals carry the `'` exactly when a declared non-terminal has the same name.
 -/
 namespace AlgoVerif.C10.Driver
 open AlgoVerif AlgoVerif.Gram AlgoVerif.C10
 
 def showSet (l : List String) : String := "{" ++ ",".intercalate (sortDedup l) ++ "}"
 
-def prodKey (p : SProd) : String := p.head ++ "→" ++ showBody p.body
+/-! ### names ⇄ words -/
 
-def colName : Option String → String
-  | some a => a
+def hexVal (b : UInt8) : Option UInt8 :=
+  if 48 ≤ b && b ≤ 57 then some (b - 48)
+  else if 65 ≤ b && b ≤ 70 then some (b - 55)
+  else if 97 ≤ b && b ≤ 102 then some (b - 87)
+  else none
+
+/-- `%XX` → the byte; any other byte (and a `%` that is not followed by two hex digits) stands for itself -/
+def decBytes : Nat → List UInt8 → List UInt8
+  | 0, l => l
+  | _, [] => []
+  | n + 1, b :: rest =>
+    if b = 37 then
+      match rest with
+      | h :: l :: rest' =>
+        match hexVal h, hexVal l with
+        | some x, some y => (x * 16 + y) :: decBytes n rest'
+        | _, _ => b :: decBytes n rest
+      | _ => b :: decBytes n rest
+    else b :: decBytes n rest
+
+/-- the name a word (without marker) stands for -/
+def decName (w : String) : String :=
+  if w = "%" then "" else
+  if !w.contains '%' then w else
+  let bs := w.toUTF8.toList
+  match String.fromUTF8? (ByteArray.mk (decBytes bs.length bs).toArray) with
+  | some s => s
+  | none => w
+
+def hexDigit (n : Nat) : Char := if n < 10 then Char.ofNat (48 + n) else Char.ofNat (55 + n)
+
+def escByte (b : UInt8) : String := String.ofList ['%', hexDigit (b.toNat / 16), hexDigit (b.toNat % 16)]
+
+def escChar (c : Char) : String := String.join ((String.singleton c).toUTF8.toList.map escByte)
+
+/-- the canonical word of a name -/
+def encName (s : String) : String :=
+  if s = "" then "%" else
+  if s = "$" || s = "ε" then String.join (s.toList.map escChar) else
+  let esc (first : Bool) (c : Char) : String :=
+    if c.toNat ≤ 32 || c.toNat = 127 || c = '%' || c = '→' || (first && (c = '\'' || c = '^')) then escChar c
+    else String.singleton c
+  match s.toList with
+  | [] => "%"
+  | c :: rest => esc true c ++ String.join (rest.map (esc false))
+
+/-- a terminal is printed with `'` exactly when a declared non-terminal has its name -/
+def encT (g : SGrammar) (t : String) : String :=
+  if g.nonterms.contains t then "'" ++ encName t else encName t
+
+def encSym (g : SGrammar) : SSym → String
+  | .term t => encT g t
+  | .nonterm n => encName n
+
+def showBodyE (g : SGrammar) (b : List SSym) : String :=
+  if b.isEmpty then "ε" else " ".intercalate (b.map (encSym g))
+
+def prodKey (g : SGrammar) (p : SProd) : String := encName p.head ++ "→" ++ showBodyE g p.body
+
+def colName (g : SGrammar) : Option String → String
+  | some a => encT g a
   | none => "$"
 
-def toSym (g : SGrammar) (w : String) : SSym :=
-  if g.nonterms.contains w then Sym.nonterm w else
+/-- the terminal a word (with or without `'`) names -/
+def decT (w : String) : String :=
   match w.toList with
-  | '^' :: r => Sym.nonterm (String.ofList r)
-  | _ => Sym.term w
+  | '\'' :: r => decName (String.ofList r)
+  | _ => decName w
+
+/-- the non-terminal a word (with or without `^`) names -/
+def decN (w : String) : String :=
+  match w.toList with
+  | '^' :: r => decName (String.ofList r)
+  | _ => decName w
+
+def toSym (g : SGrammar) (w : String) : SSym :=
+  match w.toList with
+  | '^' :: r => Sym.nonterm (decName (String.ofList r))
+  | '\'' :: r => Sym.term (decName (String.ofList r))
+  | _ => let n := decName w; if g.nonterms.contains n then Sym.nonterm n else Sym.term n
+
+/-- the names of `l` (duplicate-free) in the order of the words `key` gives them -/
+def sortByWord (key : String → String) (l : List String) : List String :=
+  (AlgoVerif.C08.sortBy (fun (a b : String × String) => decide (a.1 < b.1)) ((dedup l).map fun x => (key x, x))).map (·.2)
 
 /-- `NewCFG`: the three components are sets -/
 def normalise (g : SGrammar) : SGrammar :=
   { g with terms := dedup g.terms, nonterms := dedup g.nonterms, prods := dedup g.prods }
 
-def showLL1Err : LL1Err String String → String
+def showLL1Err (g : SGrammar) : LL1Err String String → String
   | .firstFirst A α β =>
-    let a := showBody α
-    let b := showBody β
-    if a < b then s!"ff {A}: {a} | {b}" else s!"ff {A}: {b} | {a}"
-  | .epsFollow A e o => s!"ef {A}: eps={showBody e} other={showBody o}"
+    let a := showBodyE g α
+    let b := showBodyE g β
+    if a < b then s!"ff {encName A}: {a} | {b}" else s!"ff {encName A}: {b} | {a}"
+  | .epsFollow A e o => s!"ef {encName A}: eps={showBodyE g e} other={showBodyE g o}"
 
 /-- sort, keeping duplicates -/
 def insertKeep (x : String) : List String → List String
@@ -74,26 +153,18 @@ def insertKeep (x : String) : List String → List String
 
 def sortKeep (l : List String) : List String := l.foldl (fun acc x => insertKeep x acc) []
 
-def showVerifyErr : VerifyErr String String → String
+def showVerifyErr (g : SGrammar) : VerifyErr String String → String
   | .startUndeclared => "start"
   | .noStartProd => "start-prod"
-  | .noProd n => "no-prod:" ++ n
-  | .headUndeclared n => "head:" ++ n
-  | .termUndeclared t => "term:" ++ t
-  | .nontermUndeclared n => "nonterm:" ++ n
+  | .noProd n => "no-prod:" ++ encName n
+  | .headUndeclared n => "head:" ++ encName n
+  | .termUndeclared t => "term:" ++ encT g t
+  | .nontermUndeclared n => "nonterm:" ++ encName n
 
 def showVerify (g : SGrammar) : String :=
   match verifyErrors g with
   | [] => "ok valid"
-  | es => s!"ok invalid [{"; ".intercalate (sortKeep (es.map showVerifyErr))}]"
-
-/-- `^Z`: the non-terminal `Z`, declared or not -/
-def caret (s : SSym) : SSym :=
-  match s with
-  | .term w => (match w.toList with
-    | '^' :: r => .nonterm (String.ofList r)
-    | _ => s)
-  | .nonterm _ => s
+  | es => s!"ok invalid [{"; ".intercalate (sortKeep (es.map (showVerifyErr g)))}]"
 
 /-- the rows in the order `OrderNonTerminals` returns them (`Model/C08.lean: orderNT`) -/
 def tableRows (g : SGrammar) : List String :=
@@ -106,12 +177,14 @@ def showTable (g : SGrammar) (an : Analysis String String) : String :=
   let rows := tableRows g
   let cols := (sortDedup g.terms).map some ++ [none]
   let t := buildTable fi an.follow g.prods rows
-  let confl := (tconflicts t rows cols).map fun c => c.1 ++ "/" ++ colName c.2
-  let nts := sortDedup g.nonterms
-  let cells := nts.flatMap fun A => cols.filterMap fun a =>
+  let confl := (tconflicts t rows cols).map fun c => encName c.1 ++ "/" ++ colName g c.2
+  -- the cells are listed in the order of the printed words
+  let nts := sortByWord encName g.nonterms
+  let dcols := (sortByWord (encT g) g.terms).map some ++ [none]
+  let cells := nts.flatMap fun A => dcols.filterMap fun a =>
     let ps := tcell t A a
-    if !ps.isEmpty then some (A ++ "/" ++ colName a ++ ":{" ++ "|".intercalate (sortDedup (ps.map prodKey)) ++ "}")
-    else if tsync t A a then some (A ++ "/" ++ colName a ++ ":sync")
+    if !ps.isEmpty then some (encName A ++ "/" ++ colName g a ++ ":{" ++ "|".intercalate (sortDedup (ps.map (prodKey g))) ++ "}")
+    else if tsync t A a then some (encName A ++ "/" ++ colName g a ++ ":sync")
     else none
   s!"ok conflicts=[{" ".intercalate confl}] cells=[{" ".intercalate cells}]"
 
@@ -126,14 +199,14 @@ def prodsOf (evs : List (Event String String)) : List SProd :=
     | .tok _ _ => none
 
 mutual
-def showTree : Tree String String → String
-  | .leaf t (some k) => s!"{t}@{k}"
-  | .leaf t none => s!"{t}@?"
-  | .node A none _ => s!"({A}?)"
-  | .node _ (some p) kids => "(" ++ prodKey p ++ showKids kids ++ ")"
-def showKids : List (Tree String String) → String
+def showTree (g : SGrammar) : Tree String String → String
+  | .leaf t (some k) => s!"{encT g t}@{k}"
+  | .leaf t none => s!"{encT g t}@?"
+  | .node A none _ => s!"({encName A}?)"
+  | .node _ (some p) kids => "(" ++ prodKey g p ++ showKids g kids ++ ")"
+def showKids (g : SGrammar) : List (Tree String String) → String
   | [] => ""
-  | k :: ks => " " ++ showTree k ++ showKids ks
+  | k :: ks => " " ++ showTree g k ++ showKids g ks
 end
 
 def parseFuel : Nat := 1000000
@@ -143,11 +216,12 @@ def showOutcome {α : Type} (f : α → String) : Outcome α → String
   | .panic => "panic"
   | .diverge => "hang"
 
-def showEvent : Event String String → String
-  | .tok t pos => s!"{t}@{pos}"
-  | .prod p => prodKey p
+def showEvent (g : SGrammar) : Event String String → String
+  | .tok t pos => s!"{encT g t}@{pos}"
+  | .prod p => prodKey g p
 
-def showEvents (es : List (Event String String)) : String := "[" ++ "; ".intercalate (es.map showEvent) ++ "]"
+def showEvents (g : SGrammar) (es : List (Event String String)) : String :=
+  "[" ++ "; ".intercalate (es.map (showEvent g)) ++ "]"
 
 def showEnding : Ending → String
   | .accept => "accept"
@@ -159,7 +233,7 @@ def showEnding : Ending → String
 /-- `-` = never, otherwise a number -/
 def faultArg (s : String) : Option Nat := if s = "-" then none else s.toNat?
 
-def showTE (f : TE String) : String := s!"ok {showSet f.terms} eps={showBool f.eps}"
+def showTE (g : SGrammar) (f : TE String) : String := s!"ok {showSet (f.terms.map (encT g))} eps={showBool f.eps}"
 
 /-- state of the driver between two description lines -/
 structure St where
@@ -192,12 +266,12 @@ def runQuery (st : St) (line : String) : String × St :=
     let an := st.an
     match cmd, args with
     | "nullable", [] =>
-      (showOutcome (fun l => "ok " ++ showSet l) (if st.valid then nullable g o else nullableP g o), st)
+      (showOutcome (fun l => "ok " ++ showSet (l.map encName)) (if st.valid then nullable g o else nullableP g o), st)
     | "first", xs =>
       match st.fi with
       | .ok fi =>
         let r := firstCall g fi st.memo (xs.map (toSym g))
-        (showOutcome showTE r.1, { st with memo := r.2 })
+        (showOutcome (showTE g) r.1, { st with memo := r.2 })
       | .panic => ("panic", st)
       | .diverge => ("hang", st)
     | "tryfirst", xs =>
@@ -205,84 +279,87 @@ def runQuery (st : St) (line : String) : String × St :=
       | .ok fi =>
         let r := firstCall g fi st.memo (xs.map (toSym g))
         ((match r.1 with
-          | .ok f => showTE f
+          | .ok f => showTE g f
           | .panic => "ok panicked"
           | .diverge => "hang"), { st with memo := r.2 })
       | .panic => ("panic", st)
       | .diverge => ("hang", st)
     | "follow", [A] =>
       (showOutcome id (an.bind fun an =>
-        let A := match A.toList with
-          | '^' :: r => String.ofList r
-          | _ => A
+        let A := decN A
         if g.nonterms.contains A then
           let f := an.follow A
-          Outcome.ok s!"ok {showSet f.terms} end={showBool f.endm}"
+          Outcome.ok s!"ok {showSet (f.terms.map (encT g))} end={showBool f.endm}"
         else Outcome.panic), st)
     | "ll1", [] =>
       (showOutcome id (an.map fun an =>
         let errs := ll1Errors g (firstStr an.first) an.follow
         if errs.isEmpty then "ok true"
-        else s!"ok false [{"; ".intercalate (sortDedup (errs.map showLL1Err))}]"), st)
+        else s!"ok false [{"; ".intercalate (sortDedup (errs.map (showLL1Err g)))}]"), st)
     | "table", [] => (showOutcome id (an.map fun an => showTable g an), st)
     | "cell", [A, a] =>
       (showOutcome id (an.map fun an =>
         let t := buildTable (firstStr an.first) an.follow g.prods (tableRows g)
-        let c := cellInfo t A (if a = "$" then none else some a)
+        let c := cellInfo t (decN A) (if a = "$" then none else some (decT a))
         s!"ok empty={showBool c.1} sync={showBool c.2.1} prod={match c.2.2 with
-          | some p => prodKey p
+          | some p => prodKey g p
           | none => "-"}"), st)
     | "parse", w =>
       (showOutcome id (an.bind fun an =>
-        (parseWith g an parseFuel w).map fun r =>
+        (parseWith g an parseFuel (w.map decT)).map fun r =>
           match r with
           | .tableError => "ok table-error"
           | .done (.reject why) => "ok reject " ++ showReject why
-          | .done (.accept evs) => ("ok accept " ++ "; ".intercalate ((prodsOf evs).map prodKey))), st)
+          | .done (.accept evs) => ("ok accept " ++ "; ".intercalate ((prodsOf evs).map (prodKey g)))), st)
     | "parse0", w =>
       (showOutcome id (an.bind fun an =>
-        (parseWith g an parseFuel w).map fun r =>
+        (parseWith g an parseFuel (w.map decT)).map fun r =>
           match r with
           | .tableError => "ok table-error"
           | .done (.reject why) => "ok reject " ++ showReject why
           | .done (.accept _) => "ok accept"), st)
     | "parsef", l :: t :: p :: ":" :: w =>
       (showOutcome id (an.bind fun an =>
-        (parseWithF g an (faultArg l) (faultArg t) (faultArg p) parseFuel w).map fun r =>
+        (parseWithF g an (faultArg l) (faultArg t) (faultArg p) parseFuel (w.map decT)).map fun r =>
           match r with
           | .tableError => "ok table-error"
-          | .done evs e => s!"ok {showEnding e} {showEvents evs}"), st)
+          | .done evs e => s!"ok {showEnding e} {showEvents g evs}"), st)
     | "astf", l :: ":" :: w =>
       (showOutcome id (an.bind fun an =>
-        (parseWithF g an (faultArg l) none none parseFuel w).bind fun r =>
+        (parseWithF g an (faultArg l) none none parseFuel (w.map decT)).bind fun r =>
           match r with
           | .tableError => Outcome.ok "ok table-error"
           | .done evs .accept =>
             (buildASTStack g.start evs).map fun t =>
-              s!"ok {showTree t} yield=[{" ".intercalate t.yield}]"
+              s!"ok {showTree g t} yield=[{" ".intercalate (t.yield.map (encT g))}]"
           | .done _ e => Outcome.ok ("ok " ++ showEnding e)), st)
     | "ast", w =>
       (showOutcome id (an.bind fun an =>
-        (parseWith g an parseFuel w).bind fun r =>
+        (parseWith g an parseFuel (w.map decT)).bind fun r =>
           match r with
           | .tableError => Outcome.ok "ok table-error"
           | .done (.reject why) => Outcome.ok ("ok reject " ++ showReject why)
           | .done (.accept evs) =>
             (buildASTStack g.start evs).map fun t =>
-              s!"ok {showTree t} yield=[{" ".intercalate t.yield}]"), st)
+              s!"ok {showTree g t} yield=[{" ".intercalate (t.yield.map (encT g))}]"), st)
     | _, _ => ("bad-op", st)
   | [] => ("bad-op", st)
 
 /-- `unprod H : body` -/
 def parseUnprod (g : SGrammar) (line : String) : Option SProd :=
   match words line with
-  | "unprod" :: h :: ":" :: body => some { head := h, body := body.map (toSym g) }
+  | "unprod" :: h :: ":" :: body => some { head := decN h, body := body.map (toSym g) }
   | _ => none
 
-/-- `parseGrammarLine`, then `^Z` words of the bodies become non-terminals -/
+/-- fold one description line into the grammar (`Gram.parseGrammarLine` with the words decoded; a body word is a
+non-terminal iff it carries `^` or names a non-terminal listed so far) -/
 def parseDesc (g : SGrammar) (line : String) : SGrammar × Bool :=
-  let r := parseGrammarLine g line
-  ({ r.1 with prods := r.1.prods.map fun p => { p with body := p.body.map caret } }, r.2)
+  match words line with
+  | "terms" :: ts => ({ g with terms := g.terms ++ ts.map decT }, true)
+  | "nonterms" :: ns => ({ g with nonterms := g.nonterms ++ ns.map decN }, true)
+  | ["start", s] => ({ g with start := decN s }, true)
+  | "prod" :: h :: ":" :: body => ({ g with prods := g.prods ++ [{ head := decN h, body := body.map (toSym g) }] }, true)
+  | _ => (g, false)
 
 def runCase (_hdr : List String) (ops : List String) : List String := Id.run do
   let mut raw : SGrammar := SGrammar.empty
